@@ -18,6 +18,9 @@
      all_pairs_inverse pc               the 14 scale_X / unscale_X pairs are mutual inverses on vectors of the active lengths
      pc_reach K pc    pc is reachable from init() by any sequence of scale_data calls (fresh or reuse, any scale_cost,
                       any iteration count) on arbitrary well-formed data of the same dimensions
+   Every statement about ruiz_scale_data / scale_data is quantified over sq = the [sparse_quirk] flag of PrecondDense.v
+   (false: dense/preconditioner.hpp; true: the two deviations of sparse/preconditioner.hpp -- delta_iter_lb/ub not zeroed
+   before the loop, delta_lb_inv reused as cost-scaling scratch and then read by the next loop guard).
    History note: the model of the code BEFORE the fix "Ruiz preconditioners must invert the whole bound-scaling vectors"
    refuted C15_history_preserves_inverse (preconditioner_iter = 0, n_lb grows 1 -> 2, reuse = true: the new slot of
    delta_lb_inv is 0, unscale_slack_lb multiplies by 0).  Example C15_ex_growth_after_zero_iterations replays exactly
@@ -37,10 +40,10 @@ Print Assumptions C15_scale_unscale_pairs.
 (* T1: a fresh scale_data (any data, sizes, bound pattern, iteration count, scale_cost; ANY previous preconditioner
    state of the right dimensions) establishes the invariant on all slots and well-formed outputs *)
 Theorem C15_scale_establishes_inverse :
-  forall (K : Consts), sane_consts K ->
+  forall (K : Consts) (sq : bool), sane_consts K ->
   forall (pc0 : Precond) (d0 : Data) (sc : bool) (it : Z) (pc' : Precond) (d' : Data),
   wf_data d0 -> dims_agree pc0 d0 ->
-  ruiz_scale_data K pc0 d0 false sc it = Ok (pc', d') ->
+  ruiz_scale_data K sq pc0 d0 false sc it = Ok (pc', d') ->
   pc_inverse pc' /\ wf_data d' /\ wf_pc pc' d' /\
   pc_nlb pc' = d_nlb d' /\ pc_nub pc' = d_nub d' /\
   d_lb_idx d' = d_lb_idx d0 /\ d_ub_idx d' = d_ub_idx d0.
@@ -50,28 +53,28 @@ Print Assumptions C15_scale_establishes_inverse.
 (* T1 (progress): it returns Ok -- no division by zero, no index or shape error -- when n >= 1 or the cost is not scaled
    (for n = 0 and scale_cost = true the code divides by T(n) = 0) *)
 Theorem C15_scale_fresh_ok :
-  forall (K : Consts), sane_consts K ->
+  forall (K : Consts) (sq : bool), sane_consts K ->
   forall (pc0 : Precond) (d0 : Data) (sc : bool) (it : Z),
   wf_data d0 -> dims_agree pc0 d0 -> (sc = false \/ (1 <= d_n d0)%nat) ->
-  exists pc' d', ruiz_scale_data K pc0 d0 false sc it = Ok (pc', d').
+  exists pc' d', ruiz_scale_data K sq pc0 d0 false sc it = Ok (pc', d').
 Proof. exact scale_fresh_ok. Qed.
 Print Assumptions C15_scale_fresh_ok.
 
 (* T2: unscale_data then scale_data(reuse) restores preconditioner state and data -- every field, including the strict
    lower triangle of P and the full box-scaling vectors *)
 Theorem C15_unscale_scale_id :
-  forall (K : Consts) (pc : Precond) (d : Data) (sc : bool) (it : Z),
+  forall (K : Consts) (sq : bool) (pc : Precond) (d : Data) (sc : bool) (it : Z),
   wf_data d -> wf_pc pc d -> pc_inverse pc -> pc_nlb pc = d_nlb d -> pc_nub pc = d_nub d ->
   exists d0, ruiz_unscale_data pc d = Ok d0 /\ wf_data d0 /\
-             ruiz_scale_data K pc d0 true sc it = Ok (pc, d).
+             ruiz_scale_data K sq pc d0 true sc it = Ok (pc, d).
 Proof. exact unscale_scale_id. Qed.
 Print Assumptions C15_unscale_scale_id.
 
 (* T2, other direction: scale_data(reuse) on any well-formed data (any bound pattern) then unscale_data *)
 Theorem C15_scale_unscale_id :
-  forall (K : Consts) (pc : Precond) (d : Data) (sc : bool) (it : Z),
+  forall (K : Consts) (sq : bool) (pc : Precond) (d : Data) (sc : bool) (it : Z),
   wf_data d -> wf_pc pc d -> pc_inverse pc ->
-  exists d', ruiz_scale_data K pc d true sc it = Ok (pc <| pc_nlb := d_nlb d |> <| pc_nub := d_nub d |>, d') /\
+  exists d', ruiz_scale_data K sq pc d true sc it = Ok (pc <| pc_nlb := d_nlb d |> <| pc_nub := d_nub d |>, d') /\
              wf_data d' /\
              ruiz_unscale_data (pc <| pc_nlb := d_nlb d |> <| pc_nub := d_nub d |>) d' = Ok d.
 Proof. exact scale_unscale_id. Qed.
@@ -79,10 +82,10 @@ Print Assumptions C15_scale_unscale_id.
 
 (* T3: freshly scaled data = original data transformed by the scalings the preconditioner reports *)
 Theorem C15_scaled_data_is_transform :
-  forall (K : Consts), sane_consts K ->
+  forall (K : Consts) (sq : bool), sane_consts K ->
   forall (pc0 : Precond) (d0 : Data) (sc : bool) (it : Z) (pc' : Precond) (d' : Data),
   wf_data d0 -> dims_agree pc0 d0 ->
-  ruiz_scale_data K pc0 d0 false sc it = Ok (pc', d') ->
+  ruiz_scale_data K sq pc0 d0 false sc it = Ok (pc', d') ->
   is_transform (pc_c pc') (pc_delta pc') (pc_delta_lb pc') (pc_delta_ub pc') d0 d' /\
   bounds_transform (pc_delta pc') (pc_delta_lb pc') (pc_delta_ub pc') d0 d'.
 Proof. exact scaled_data_is_transform. Qed.
@@ -90,9 +93,9 @@ Print Assumptions C15_scaled_data_is_transform.
 
 (* T3 for the reuse branch *)
 Theorem C15_scale_reuse_is_transform :
-  forall (K : Consts) (pc : Precond) (d : Data) (sc : bool) (it : Z) (pc' : Precond) (d' : Data),
+  forall (K : Consts) (sq : bool) (pc : Precond) (d : Data) (sc : bool) (it : Z) (pc' : Precond) (d' : Data),
   wf_data d -> wf_pc pc d ->
-  ruiz_scale_data K pc d true sc it = Ok (pc', d') ->
+  ruiz_scale_data K sq pc d true sc it = Ok (pc', d') ->
   is_transform (pc_c pc') (pc_delta pc') (pc_delta_lb pc') (pc_delta_ub pc') d d' /\
   bounds_transform (pc_delta pc') (pc_delta_lb pc') (pc_delta_ub pc') d d'.
 Proof. exact scale_reuse_is_transform. Qed.
@@ -116,15 +119,27 @@ Theorem C15_rescale_step :
   sane_consts K ->
   wf_data d -> wf_pc pc d -> pc_inverse pc -> pc_nlb pc = d_nlb d -> pc_nub pc = d_nub d ->
   exists d0, ruiz_unscale_data pc d = Ok d0 /\ wf_data d0 /\
-   (forall sc it, ruiz_scale_data K pc d0 true sc it = Ok (pc, d)) /\
-   forall d1 reuse sc it, wf_data d1 -> dims_agree pc d1 ->
+   (forall sq sc it, ruiz_scale_data K sq pc d0 true sc it = Ok (pc, d)) /\
+   forall d1 sq reuse sc it, wf_data d1 -> dims_agree pc d1 ->
      (reuse = true \/ sc = false \/ (1 <= d_n d1)%nat) ->
-     exists pc' d', ruiz_scale_data K pc d1 reuse sc it = Ok (pc', d') /\
+     exists pc' d', ruiz_scale_data K sq pc d1 reuse sc it = Ok (pc', d') /\
        pc_inverse pc' /\ wf_data d' /\ wf_pc pc' d' /\ pc_nlb pc' = d_nlb d' /\ pc_nub pc' = d_nub d' /\
        is_transform (pc_c pc') (pc_delta pc') (pc_delta_lb pc') (pc_delta_ub pc') d1 d' /\
        bounds_transform (pc_delta pc') (pc_delta_lb pc') (pc_delta_ub pc') d1 d'.
 Proof. exact rescale_step. Qed.
 Print Assumptions C15_rescale_step.
+
+(* the sparse quirk only changes the number of iterations: for either value of the flag the result of a fresh scale_data
+   is the DENSE iteration (ruiz_iter with flag false) applied exactly k <= max_it times to the initial state, followed by
+   the common final part ruiz_finish (inversion of the accumulated scalings, scaling of the bounds) *)
+Theorem C15_sparse_quirk_only_changes_iteration_count :
+  forall (K : Consts) (sq : bool) (pc0 : Precond) (d : Data) (sc : bool) (it : Z) (pc' : Precond) (d' : Data),
+  sane_consts K -> wf_data d -> dims_agree pc0 d ->
+  ruiz_scale_data K sq pc0 d false sc it = Ok (pc', d') ->
+  exists k st, (k <= Z.to_nat it)%nat /\
+               ruiz_iterate K sc k (st_fresh false pc0 d) = Ok st /\ ruiz_finish st = Ok (pc', d').
+Proof. exact sparse_quirk_only_changes_iteration_count. Qed.
+Print Assumptions C15_sparse_quirk_only_changes_iteration_count.
 
 (* init() satisfies the invariant *)
 Theorem C15_init_inverse :
@@ -135,9 +150,9 @@ Print Assumptions C15_init_inverse.
 
 (* IdentityPreconditioner: the data are untouched (the model only records n_lb / n_ub in the state) *)
 Theorem C15_identity_precond_roundtrip :
-  forall (K : Consts) (pc : Precond) (d : Data) (reuse sc : bool) (it : Z),
+  forall (K : Consts) (sq : bool) (pc : Precond) (d : Data) (reuse sc : bool) (it : Z),
   pc_ident pc = true ->
-  scale_data K pc d reuse sc it = Ok (pc <| pc_nlb := d_nlb d |> <| pc_nub := d_nub d |>, d) /\ unscale_data pc d = Ok d.
+  scale_data K sq pc d reuse sc it = Ok (pc <| pc_nlb := d_nlb d |> <| pc_nub := d_nub d |>, d) /\ unscale_data pc d = Ok d.
 Proof. exact identity_precond_roundtrip. Qed.
 Print Assumptions C15_identity_precond_roundtrip.
 
@@ -163,7 +178,7 @@ Qed.
 (* three iterations with cost scaling: Ok, and the result is not the identity scaling
    (c = 1/20, delta = (1/2,1,1,1), delta_lb = (4,1)) *)
 Example C15_ex_scale_nontrivial :
-  match ruiz_scale_data consts (precond_init false C15_ex_d) C15_ex_d false true 3 with
+  match ruiz_scale_data consts false (precond_init false C15_ex_d) C15_ex_d false true 3 with
   | Ok (pc, d) => qeqb (pc_c pc) (qmk 1 20) && qeqb (nth 0 (pc_delta pc) 0) (qmk 1 2)
                   && qeqb (nth 0 (pc_delta_lb pc) 0) (qmk 4 1) && qeqb (mentry (d_P d) 0 0) (qmk 4 5)
                   && qeqb (mentry (d_P d) 1 0) (qmk 7 20)
@@ -178,11 +193,11 @@ Definition C15_ex_d2 (d : Data) : Data :=
   d <| d_lb_idx := [0%nat; 1%nat] |> <| d_lb_n := [qmk 3 1; qmk 4 1] |>.
 
 Example C15_ex_growth_after_zero_iterations :
-  match ruiz_scale_data consts (precond_init false C15_ex_d) C15_ex_d false false 0 with
+  match ruiz_scale_data consts false (precond_init false C15_ex_d) C15_ex_d false false 0 with
   | Ok (pc1, d1) =>
     match ruiz_unscale_data pc1 d1 with
     | Ok d1u =>
-      match ruiz_scale_data consts pc1 (C15_ex_d2 d1u) true false 0 with
+      match ruiz_scale_data consts false pc1 (C15_ex_d2 d1u) true false 0 with
       | Ok (pc2, d2) =>
           Nat.eqb (pc_nlb pc1) 1 && Nat.eqb (pc_nlb pc2) 2 &&
           match unscale_slack_lb pc2 (scale_slack_lb pc2 [qmk 5 1; qmk 7 1]) with
@@ -199,11 +214,11 @@ Proof. vm_compute. reflexivity. Qed.
 
 (* same history after a non-trivial equilibration (3 iterations, cost scaled: delta_lb = (4,1)) *)
 Example C15_ex_growth_after_three_iterations :
-  match ruiz_scale_data consts (precond_init false C15_ex_d) C15_ex_d false true 3 with
+  match ruiz_scale_data consts false (precond_init false C15_ex_d) C15_ex_d false true 3 with
   | Ok (pc1, d1) =>
     match ruiz_unscale_data pc1 d1 with
     | Ok d1u =>
-      match ruiz_scale_data consts pc1 (C15_ex_d2 d1u) true true 3 with
+      match ruiz_scale_data consts false pc1 (C15_ex_d2 d1u) true true 3 with
       | Ok (pc2, d2) =>
           Nat.eqb (pc_nlb pc2) 2 &&
           match unscale_slack_lb pc2 (scale_slack_lb pc2 [qmk 5 1; qmk 7 1]), scale_slack_lb pc2 [qmk 5 1; qmk 7 1] with
@@ -220,11 +235,58 @@ Proof. vm_compute. reflexivity. Qed.
 
 (* a reachable, non-initial preconditioner state exists *)
 Example C15_ex_reach :
-  exists pc' d', ruiz_scale_data consts (precond_init false C15_ex_d) C15_ex_d false true 3 = Ok (pc', d') /\
+  exists pc' d', ruiz_scale_data consts false (precond_init false C15_ex_d) C15_ex_d false true 3 = Ok (pc', d') /\
                  pc_reach consts pc'.
 Proof.
-  destruct (scale_fresh_ok consts C15_ex_sane_consts (precond_init false C15_ex_d) C15_ex_d true 3%Z
+  destruct (scale_fresh_ok consts false C15_ex_sane_consts (precond_init false C15_ex_d) C15_ex_d true 3%Z
               (proj1 C15_ex_wf) (proj2 C15_ex_wf) (or_intror (le_S _ _ (le_n _)))) as (pc' & d' & E).
   exists pc', d'. split; [exact E|].
   eapply reach_scale; [apply (reach_init consts false C15_ex_d), C15_ex_wf|apply C15_ex_wf|apply C15_ex_wf|exact E].
 Qed.
+
+(* the sparse quirk is observable: P = 2 I, c = (16,0), lower bound on x0, scale_cost = true, max_iter = 10.
+   The dense guard stops after 1 iteration (c = 1/16, delta = (1,1)); with the quirk the guard reads the cost scratch
+   (2,..) and the loop goes on (c = 1/17, delta = (1,4)) -- which is exactly the dense iteration applied twice. *)
+Definition C15_ex_dq : Data :=
+  mkData 2 0 0 [[qmk 2 1; qmk 0 1]; [qmk 0 1; qmk 2 1]] [] [] [qmk 16 1; qmk 0 1] [] [] [0%nat] []
+         [qmk 1 1; qmk 1 1] [qmk 1 1; qmk 1 1] [qmk 3 1] [].
+
+Example C15_ex_dq_wf : wf_data C15_ex_dq /\ dims_agree (precond_init false C15_ex_dq) C15_ex_dq.
+Proof.
+  split; [constructor|repeat split]; cbn; try reflexivity; try (split; [reflexivity|repeat constructor]);
+    repeat split; auto with arith.
+Qed.
+
+Example C15_ex_sparse_quirk_differs :
+  match ruiz_scale_data consts false (precond_init false C15_ex_dq) C15_ex_dq false true 10,
+        ruiz_scale_data consts true (precond_init false C15_ex_dq) C15_ex_dq false true 10,
+        (do st <- ruiz_iterate consts true 2 (st_fresh false (precond_init false C15_ex_dq) C15_ex_dq) ;; ruiz_finish st) with
+  | Ok (pcd, _), Ok (pcs, ds), Ok (pc2, d2) =>
+      qeqb (pc_c pcd) (qmk 1 16) && qeqb (nth 1 (pc_delta pcd) 0) (qmk 1 1) &&
+      qeqb (pc_c pcs) (qmk 1 17) && qeqb (nth 1 (pc_delta pcs) 0) (qmk 4 1) &&
+      qeqb (pc_c pc2) (pc_c pcs) && qeqb (nth 1 (pc_delta pc2) 0) (nth 1 (pc_delta pcs) 0) &&
+      qeqb (mentry (d_P d2) 1 1) (mentry (d_P ds) 1 1)
+  | _, _, _ => false
+  end = true.
+Proof. vm_compute. reflexivity. Qed.
+
+(* the growth history with the sparse quirk switched on (setup with scale_cost, 3 iterations; then n_lb grows, reuse) *)
+Example C15_ex_growth_sparse_quirk :
+  match ruiz_scale_data consts true (precond_init false C15_ex_d) C15_ex_d false true 3 with
+  | Ok (pc1, d1) =>
+    match ruiz_unscale_data pc1 d1 with
+    | Ok d1u =>
+      match ruiz_scale_data consts true pc1 (C15_ex_d2 d1u) true true 3 with
+      | Ok (pc2, d2) =>
+          Nat.eqb (pc_nlb pc2) 2 &&
+          match unscale_slack_lb pc2 (scale_slack_lb pc2 [qmk 5 1; qmk 7 1]) with
+          | [a; b] => qeqb a (qmk 5 1) && qeqb b (qmk 7 1)
+          | _ => false
+          end
+      | Err _ => false
+      end
+    | Err _ => false
+    end
+  | Err _ => false
+  end = true.
+Proof. vm_compute. reflexivity. Qed.
